@@ -180,6 +180,27 @@ def run_fit(cfg, tape, pre=False):
             out.append(("protocol:stop-request-did-not-persist", dict(flag=st.stop_training)))
         if pre and (glog or params_hash(st) != h0 or env.calls):
             out.append(("protocol:pre-stopped-run-did-something", dict(events=len(glog), random_calls=env.calls[:3])))
+    if not out and cfg["cbl"] == "RS" and not cfg.get("timer"):
+        # non-initial state: call fit again on the same objects.  A still-set request must make it a
+        # no-op; after the user resets the flag the full protocol must run again.
+        n0 = len(glog)
+        h1 = params_hash(st)
+        was = st.stop_training
+        state["injected"] = True  # no further injection
+        try:
+            with contextlib.redirect_stdout(io.StringIO()):
+                call(st.fit, data, epochs=E, starting_epoch=e0, pos_batch_size=pb, callbacks=cbs, **kw)
+                if was and (len(glog) != n0 or params_hash(st) != h1 or not st.stop_training):
+                    out.append(("protocol:second-fit-after-stop-request-did-something", dict(new_events=len(glog) - n0)))
+                if was:
+                    st.stop_training = False
+                    n0 = len(glog)
+                    call(st.fit, data, epochs=E, starting_epoch=e0, pos_batch_size=pb, callbacks=cbs, **kw)
+                again = [(e, s_) for (c, e, s_, h) in glog[n0:] if c == 0]
+                if again != P.run(e0, E, nb, None, False):
+                    out.append(("protocol:fit-after-reset-does-not-follow-the-protocol", dict(observed=again[:4], expected=P.run(e0, E, nb, None, False)[:4])))
+        except LibRaised as e:
+            out.append((f"protocol:second-fit-raised:{e.kind}", dict(tb=e.tb)))
     trace_after = None
     if cfg["cbl"].endswith("R") and m >= 2 and pos is not None and pos < m - 1 or cfg["cbl"] == "R":
         last = m - 1
